@@ -62,12 +62,21 @@ def c16(out, tier, rng):
     # rare seeds: many seeds on tiny symmetric molecules; the results that look wrong to the driver, and a sample of the others, are logged
     from tucan.io import graph_from_tucan
     swept = 0
-    for s in ["H2O/(1-3)(2-3)", "H4/(1-2)(3-4)", "H3N/(1-4)(2-4)(3-4)", "CH4/(1-5)(2-5)(3-5)(4-5)", "Ar3/", "CaCl2/", "H2O2/(1-3)(2-4)(3-4)"]:
+    tiny = ["H2O/(1-3)(2-3)", "H4/(1-2)(3-4)", "H3N/(1-4)(2-4)(3-4)", "CH4/(1-5)(2-5)(3-5)(4-5)", "Ar3/", "CaCl2/", "H2O2/(1-3)(2-4)(3-4)",
+            "ClH/(1-2)", "ClNa/", "C3/(1-2)(1-3)(2-3)", "HO/(1-2)"]
+    for si, s in enumerate(tiny + tiny[-4:] + tiny[:3]):
         try:
             g = graph_from_tucan(s)
         except Exception:
             continue
-        S = Session("permsweep-" + s)
+        if si >= len(tiny):
+            # the same molecule stored with its atoms in another order than their labels (as canonical graphs are)
+            order = list(g.nodes)[1:] + list(g.nodes)[:1]
+            h = nx.Graph()
+            h.add_nodes_from((a, dict(g.nodes[a])) for a in order)
+            h.add_edges_from((a, b, dict(d)) for a, b, d in g.edges(data=True))
+            g = h
+        S = Session(f"permsweep-{si}-" + s)
         o = S.input(g)
         enforce = g.number_of_edges() > 1 and nx.density(g) != 1
         nseeds = 1500 if tier == "quick" else 9000
@@ -90,11 +99,16 @@ def c16(out, tier, rng):
         keep = [a for a in g.nodes if rng.random() < 0.7]
         if len(keep) < 2:
             continue
-        kind = i % 3
+        kind = i % 4
         if kind == 0:
             h = g.subgraph(keep).copy()
         elif kind == 1:
             h = g.copy(); h.remove_nodes_from([a for a in g.nodes if a not in keep])
+        elif kind == 3:
+            # small integers around zero, negative ones included: sets that look like 0..n-1 by their size or their largest member
+            nn = g.number_of_nodes()
+            lab = dict(zip(g.nodes, rng.sample(range(-nn, nn + 1), nn)))
+            h = nx.relabel_nodes(g, lab, copy=True)
         else:
             lab = dict(zip(g.nodes, rng.sample(range(-50, 5000), g.number_of_nodes())))
             h = nx.relabel_nodes(g, lab, copy=True)
